@@ -282,3 +282,157 @@ def check_stability(chk, tier):
         vals = {r[k] for r in runs}
         if len(vals) != 1:
             chk.violation(f"sig:unstable:{k}", f"{k} name differs between processes building the same request (hash seed / UFL counter offset / creation order): {sorted(vals)[:2]}", None)
+
+
+# ---------------------------------------------------------------------------
+# History independence of names inside one process (bounded enumeration of histories under an
+# adversarial environment for id(); not solver-decided - stated as such in the evidence).
+
+
+class IdEnv:
+    """Stand-in for the builtin id() as seen by ffcx's modules.  Contract of id(): unique among
+    simultaneously live objects, arbitrary otherwise.  This environment makes the choice the
+    contract allows that is worst for a memo keyed by id(): an object gets the identity of an
+    object that has died (refcount shows that only this table still holds it)."""
+
+    def __init__(self):
+        self.slots = []  # strong references; slot index + base = identity
+
+    def __call__(self, obj):
+        n = len(self.slots)
+        for i in range(n):
+            if self.slots[i] is obj:
+                return 1000 + i
+        for i in range(n):
+            o = self.slots[i]
+            dead = o is None or sys.getrefcount(o) <= 3  # the slots list + local o + getrefcount's argument
+            del o
+            if dead:
+                self.slots[i] = obj
+                return 1000 + i
+        self.slots.append(obj)
+        return 1000 + n
+
+
+def _pool_request(i):
+    """Request number i of the pool, built from fresh UFL objects on every call."""
+    import basix.ufl
+    import ufl
+
+    m = ufl.Mesh(basix.ufl.element("Lagrange", "triangle", 1, shape=(2,)))
+    V = ufl.FunctionSpace(m, basix.ufl.element("Lagrange", "triangle", 1))
+    x = ufl.SpatialCoordinate(m)
+    pts = np.array([[0.25, 0.5], [0.1, 0.2]])
+    if i < 4:
+        return "expr", (float(2 + i) * x[0], pts)
+    if i == 4:
+        f, g = ufl.Coefficient(V), ufl.Coefficient(V)
+        return "expr", (f * ufl.grad(g)[0], pts)
+    if i == 5:
+        f = ufl.Coefficient(V)
+        return "expr", (f * x[1], pts)
+    u, v = ufl.TrialFunction(V), ufl.TestFunction(V)
+    if i == 6:
+        return "form", 2.0 * u * v * ufl.dx
+    if i == 7:
+        return "form", 3.0 * u * v * ufl.dx
+    f = ufl.Coefficient(V)
+    return "form", f * u * v * ufl.dx
+
+
+POOL = 9
+
+
+def _names_of(i):
+    import gc
+
+    import ffcx.naming as naming
+
+    kind, obj = _pool_request(i)
+    out = {"module": naming.compute_signature([obj], "tag")}
+    if kind == "expr":
+        out["object"] = naming.expression_name(obj, "p")
+    else:
+        out["object"] = naming.form_name(obj, 0, "p")
+        out["integral"] = naming.integral_name(obj, "cell", 0, ("otherwise",), "p")
+    del obj
+    gc.collect()
+    return out
+
+
+def _with_idenv(fn):
+    env = IdEnv()
+    mods = [m for n, m in list(sys.modules.items()) if n == "ffcx" or n.startswith("ffcx.")]
+    for m in mods:
+        m.__dict__["id"] = env
+    try:
+        return fn()
+    finally:
+        for m in mods:
+            m.__dict__.pop("id", None)
+
+
+HIST = r'''
+import sys, json
+sys.path[:0] = [sys.argv[1], sys.argv[2]]
+import ffcx.naming, ffcx.codegeneration.jit
+from vlib import sigcheck
+hist = [int(t) for t in sys.argv[3].split(",")]
+print(json.dumps(sigcheck._with_idenv(lambda: [sigcheck._names_of(i) for i in hist])))
+'''
+
+
+def _run_history(hist):
+    import json
+
+    r = subprocess.run([sys.executable, "-W", "ignore", "-c", HIST, "/verif", os.environ.get("VERIF_REPO", "/repo"), ",".join(map(str, hist))],
+                       capture_output=True, text=True, env=dict(os.environ, PYTHONPATH=""))
+    if r.returncode:
+        raise RuntimeError(r.stderr[-400:])
+    return json.loads(r.stdout.strip().splitlines()[-1])
+
+
+def replay_history(hist, quiet=False):
+    base = {i: _run_history([i])[0] for i in set(hist)}
+    got = _run_history(hist)
+    bad = [(k, i) for k, i in enumerate(hist) if got[k] != base[i]]
+    if not quiet:
+        for k, i in bad:
+            print(f"request #{i} named after history {hist[:k]}: {got[k]}\n   same request named first in a fresh process: {base[i]}")
+        print("REPRODUCED" if bad else "not reproduced")
+    return bool(bad)
+
+
+def check_history(chk, tier):
+    from concurrent.futures import ThreadPoolExecutor
+
+    n = POOL
+    hists = [[i] for i in range(n)] + [[i, j] for i in range(n) for j in range(n) if i != j]
+    if tier != "quick":
+        hists += [[i, j, k] for i in range(n) for j in range(n) for k in range(n) if len({i, j, k}) == 3 and (i + 2 * j + 3 * k) % 5 == 0]
+    with ThreadPoolExecutor(14) as ex:
+        try:
+            outs = list(ex.map(_run_history, hists))
+        except RuntimeError as e:
+            chk.harness_error(f"history subprocess failed: {e}")
+            return
+    base = {h[0]: o[0] for h, o in zip(hists, outs) if len(h) == 1}
+    chk.cases.append("history")
+    chk.extra["histories"] = len(hists)
+    # different requests of the pool never share a name (fresh processes)
+    for key in ("module", "object"):
+        vals = [base[i][key] for i in range(n)]
+        if len(set(vals)) != n:
+            chk.violation(f"sig:pool-collision:{key}", f"different requests share a {key} name in fresh processes: {vals}", None)
+    reported = False
+    for h, o in zip(hists, outs):
+        for k, i in enumerate(h):
+            if o[k] != base[i] and not reported:
+                if replay_history(h, quiet=True):
+                    src = ("#!/verif/.venv/bin/python\nimport sys\nsys.path[:0]=['/verif','/repo']\nfrom vlib import sigcheck\n"
+                           f"sys.exit(1 if sigcheck.replay_history({h!r}) else 0)\n")
+                    chk.violation("sig:history-dependent", f"the name of pool request #{i} depends on what the process named before it (history {h[:k]}, id() reusing identities of dead objects): {o[k]} vs {base[i]} in a fresh process", src)
+                    reported = True
+                else:
+                    chk.inconc(f"history {h}: name difference not reproduced")
+    chk.sample({"history": hists[n], "names": outs[n], "id() environment": "identities of dead objects are reused (allowed by the contract of id)"})
